@@ -288,6 +288,11 @@ def semantic_constructor(ck, prog, cls, fn, why):
                           fn.loc(), key='Index.__init__::leaf-store')
                 want = {'xmin': ('MIN', 'xlo'), 'ymin': ('MIN', 'ylo'), 'xmax': ('MAX', 'xhi'),
                         'ymax': ('MAX', 'yhi')}
+                if all(f.get(('self', fld)) is None for fld in want):
+                    # the extent is not kept in the four plain fields (one tuple, properties,
+                    # a value object): where pruning reads it from is not followed here
+                    raise AnalysisError('%s (%s); the node does not keep its extent in the '
+                                        'fields xmin / ymin / xmax / ymax' % (fn.qualname, why))
                 for fld, (kind, role) in want.items():
                     got = flat_minmax(f.get(('self', fld)), kind)
                     inf = V_('INF') if kind == 'MIN' else -V_('INF')
